@@ -491,7 +491,7 @@ CHECKS['C17'] = dict(
          'Inputs: (a) every string up to length L (quick 5, thorough 7; hex L+1, INI file form L-1) over the significant bytes of each format; (b) generated INI / Apache-style documents (refs/gen_conf.py) and random decoder inputs, mutated: truncate, duplicate, delete, bit flips, '
          'inserted quotes/brackets/escapes, trailing backslash, 4095/4096/9000-byte lines, self- and mutually-referential ${..}, hostile @INCLUDE (missing, empty, over-long, and blank-padded lines of 3000-6000 bytes, concentrated on 4078..4101, that name an existing file), 200-20000 unclosed section tags in a row (Apache-style documents), an INI file that includes itself. ${!cmd} is neutralised by a popen interposer. distinct = distinct inputs.',
     require=['inputs:qurl_decode', 'inputs:qbase64_decode', 'inputs:qhex_decode', 'inputs:qparse_queries', 'inputs:qconfig_parse_str', 'inputs:qconfig_parse_file', 'inputs:qaconf_parse',
-             'mutated_documents', 'long_include_lines_naming_an_existing_file', 'deeply_nested_section_documents', 'self_including_documents', 'branch:url_escape_at_end', 'branch:hex_odd_length', 'branch:apache_unclosed_quote', 'branch:apache_unclosed_section', 'branch:ini_cyclic_reference', 'branch:ini_include',
+             'mutated_documents', 'long_include_lines_naming_an_existing_file', 'deeply_nested_section_documents', 'self_including_documents', 'long_reference_lines', 'branch:url_escape_at_end', 'branch:hex_odd_length', 'branch:apache_unclosed_quote', 'branch:apache_unclosed_section', 'branch:ini_cyclic_reference', 'branch:ini_include',
              'results_delivered', 'errors_reported'],
     assumptions=['gcc 12 ASan/UBSan; uninitialised reads are only visible to the valgrind job of the thorough tier',
                  'a hang is keyed expansion-cycle iff an independent port of the documented ${..} rewriting semantics with round/size limits does not reach a fixpoint on that input'])
